@@ -296,6 +296,20 @@ def get_plan(pid):
                                     "every text of the pool x environment grid, incl. literal-on-the-left atoms, name normalisation spellings, set-valued extras / dependency_groups")
         plan.own = lambda name: "_build_markers#" in name or "C03." in name or (name.startswith("dep_logic.markers.single:MarkerExpression._evaluate#") and "bridge.B2" not in name)
         return plan
+    if pid == "C18":
+        plan = JobsPlan("C18", [("C18.wheel", "wheel_tags", {})], rtc=["wheel_names"], level="other",
+                        replay=lambda name, rec: ({"suite": "wheel_names", "arg": {"filename": rec["model"]["filename"]}} if (rec.get("model") or {}).get("filename") else None),
+                        technique="contract on parse_wheel_tags over file names modelled as the '-'-join of dash-free fields (T-WHEEL): returns the '.'-splits of the lower-cased last three fields "
+                                  "(extension removed) exactly when the name ends in '.whl' and has 5 or 6 fields, raises only InvalidWheelFilename otherwise; z3 (strings + arrays); comparison with "
+                                  "packaging.utils.parse_wheel_filename over the PEP 427 grammar and Platform.parse / choices() / str round trip as bounded part",
+                        trusted_base=["A-ENGINE", "A-STDLIB: endswith / [:-4] / count('-') / lower() / split('-') on a '-'-join of dash-free fields (pyvc/theories/wheel.py); lower() and split('.') "
+                                      "of a field uninterpreted", "A-PKG: packaging's parse_wheel_filename reads the same three fields (checked by the bounded part)", "A-TERM"],
+                        assumptions=["Platform.parse / Arch.parse / __str__ (regular expressions, enum tables) are bounded only: every Platform.choices() name with X_Y over a version grid parses, aliases resolve, "
+                                     "str() round-trips"],
+                        explanation="proof part: which fields of the file name become the python / abi / platform tag lists, and the accept / reject decision, for all names; bounded part: agreement with "
+                                    "packaging on the PEP 427 grammar, wheel_compatibility() not raising, platform names")
+        plan.own = lambda name: "parse_wheel_tags#" in name
+        return plan
     if pid == "C17":
         plan = JobsPlan("C17", [("C17.parse", "spec_parse", {}), ("C17.fold", "spec_fold", {})], rtc=["spec_text"], level="other",
                         technique="contract on parse_version_specifier over abstract texts ('<empty>' / contains '||' / other; packaging's SpecifierSet either raises its InvalidSpecifier or yields "
